@@ -279,6 +279,31 @@ def r2_no_carried_state(ctx, chk, rule="C10.2"):
             chk.violation(rule, s.func.where(s.node), "`%s` stores state on the game object while solving: a later solve() on the same object can see it" % norm_stmt(s.node),
                           expected="%s fields are written only by __init__" % game_cls, found=norm_stmt(s.node),
                           construct="%s writes self.%s" % (s.func.short, s.field))
+    # ... and containers of its own that the game object fills while solving (`self._solutions[mode] = ...`, `self._seen.append(..)`):
+    # a field that __init__ creates as a fresh container is a memo when a solve writes into it and a solve reads it
+    fresh_fields = set()
+    for st in walk_no_nested_defs(init.node):
+        if isinstance(st, ast.Assign) and len(st.targets) == 1 and (attr_path(st.targets[0]) or "").startswith("self."):
+            v = st.value
+            if isinstance(v, (ast.Dict, ast.List, ast.Set)) and not (getattr(v, "keys", None) or getattr(v, "elts", None)) \
+                    or (isinstance(v, ast.Call) and call_name(v) in ("dict", "list", "set", "collections.defaultdict", "defaultdict", "collections.OrderedDict", "OrderedDict") and not v.args):
+                fresh_fields.add(attr_path(st.targets[0])[5:])
+    MUT = ("append", "add", "update", "setdefault", "extend", "insert", "pop", "popitem", "clear", "remove", "discard", "appendleft")
+    for g_ in scope:
+        if g_.cls is None or g_.cls.name != game_cls or g_.name == "__init__":
+            continue
+        for n in walk_no_nested_defs(g_.node):
+            fld = None
+            if isinstance(n, ast.Subscript) and isinstance(n.ctx, (ast.Store, ast.Del)) and (attr_path(n.value) or "").startswith("self."):
+                fld = attr_path(n.value)[5:]
+            elif isinstance(n, ast.Call) and isinstance(n.func, ast.Attribute) and n.func.attr in MUT and (attr_path(n.func.value) or "").startswith("self."):
+                fld = attr_path(n.func.value)[5:]
+            if fld in fresh_fields:
+                problems += 1
+                chk.violation(rule, g_.where(n), "`%s` fills `self.%s`, a container the game object creates once in __init__, while solving: what one solve() put there is "
+                              "what the next solve() of the same object finds (a result kept per mode, a table of visited states, ...)" % (norm_stmt(ctx.cfg(g_).stmt_of(n))[:80], fld),
+                              expected="%s keeps nothing between solves" % game_cls, found=norm_stmt(ctx.cfg(g_).stmt_of(n))[:100], construct="%s fills self.%s" % (g_.short, fld))
+                break
     if not problems:
         chk.ok(rule, solve.where(), "%d functions reachable from solve(): no global / class attribute / module-level object / mutable default written; "
                "%s fields (%d) are written only in __init__; solver and node objects are created per call" % (len(scope), game_cls, n_fields))
